@@ -264,11 +264,24 @@ fn cfgx_main(args: &Args) -> i32 {
 fn shapex_run(sh: &shapes::Shape, thorough: bool) -> (shapes::ShapeCtx, u64, shapes::ShapeCtx, u64, Option<usize>) {
     use std::sync::atomic::Ordering;
     shapes::EXECS.store(0, Ordering::SeqCst);
-    let mut c1 = shapes::ShapeCtx::new(thorough);
-    (sh.run)(&mut c1);
+    // the two passes run on two different OS threads (one after the other): what the first stored the second
+    // must be served, whatever the arguments look like (C14, global scope shares)
+    let run = sh.run;
+    let c1 = std::thread::spawn(move || {
+        let mut c = shapes::ShapeCtx::new(thorough);
+        run(&mut c);
+        c
+    })
+    .join()
+    .unwrap_or_else(|_| vsched::machinery_failure("shape pass panicked"));
     let e1 = shapes::EXECS.swap(0, Ordering::SeqCst);
-    let mut c2 = shapes::ShapeCtx::new(thorough);
-    (sh.run)(&mut c2);
+    let c2 = std::thread::spawn(move || {
+        let mut c = shapes::ShapeCtx::new(thorough);
+        run(&mut c);
+        c
+    })
+    .join()
+    .unwrap_or_else(|_| vsched::machinery_failure("shape pass panicked"));
     let e2 = shapes::EXECS.swap(0, Ordering::SeqCst);
     let listed = l1::list_keys(sh.name).map(|v| v.len());
     (c1, e1, c2, e2, listed)
@@ -303,8 +316,15 @@ fn shapex_main(args: &Args) -> i32 {
                 problems.push(("key-count".into(), format!("{} distinct tuples but {} distinct keys stored", c1.evals, n)));
             }
         }
-        if e2 != 0 && problems.is_empty() {
-            // informational only: reuse is C03's business
+        let c14 = args.get("property") == Some("C14");
+        if c14 {
+            problems.clear();
+            if e2 != 0 {
+                problems.push(("global-entry-not-shared-across-threads".into(), format!("{} argument tuples were stored by one thread; a second thread calling with the same tuples ran the body {} times", c1.evals, e2)));
+            }
+            if let Some((w, g)) = c2.mismatches.first() {
+                problems.push(("wrong-value-on-second-thread".into(), format!("call with {w} on the second thread returned the value computed for {g}")));
+            }
         }
         emit(
             "SHAPE",
@@ -326,9 +346,10 @@ fn shapex_main(args: &Args) -> i32 {
             if c01 && mon != "wrong-tuple-served" {
                 continue;
             }
+            let pname: &'static str = if c14 { "C14" } else if c01 { "C01" } else { "C02" };
             let v = Violation {
-                property: if c01 { "C01" } else { "C02" },
-                signature: format!("{}/{}/{}/{}", if c01 { "C01" } else { "C02" }, if sh.is_async { "async" } else { "sync" }, if sh.is_method { "method" } else { "fn" }, mon),
+                property: pname,
+                signature: format!("{}/{}/{}/{}", pname, if sh.is_async { "async" } else { "sync" }, if sh.is_method { "method" } else { "fn" }, mon),
                 detail: format!("{detail} | shape {} {}", sh.name, sh.signature),
                 replay: J::obj().set("engine", "shapex").set("shape", sh.name).set("tier", if thorough { "thorough" } else { "quick" }),
             };
